@@ -581,6 +581,54 @@ pub fn generate_bounds(o: &Opts) -> Vec<Case> {
             cases.push(Case { kind: kind.to_string(), frames: vec![f], sizes, evs });
         }
     }
+    // histories: earlier frames on the same connection, each consumed before the next arrives (they leave
+    // the buffer at whatever size it grew to), then a frame around the limit: the verdict for a size must
+    // not depend on what the connection carried before
+    let hist_n = if thorough { 600 } else { 90 };
+    for h in 0..hist_n {
+        let kind = if h % 2 == 0 { "cM1" } else { "rP1E1" };
+        let nprior = rng.range(1, 3);
+        let mut frames = vec![];
+        for _ in 0..nprior {
+            let wire = match rng.below(6) {
+                0 => rng.range(45, 300),
+                1 => rng.range(4096, 4352),
+                2 => rng.range(4352, 9000),
+                3 => 256 * rng.range(1, 40) + rng.range(0, 2),
+                4 => 256 * (2 * rng.range(8, 60) + 1) + rng.range(0, 200),
+                _ => rng.range(45, limit / 2),
+            };
+            frames.push(run_frame(kind, wire - 1, b'a' + (h % 26) as u8));
+        }
+        let last = match rng.below(8) {
+            0 => limit - rng.range(1, 3),
+            1 => limit,
+            2 => limit + 1,
+            3 => limit + rng.range(2, 127),
+            4 => limit + rng.range(126, 130),
+            5 => limit + rng.range(130, 258),
+            6 => limit - rng.range(3, 300),
+            _ => limit + rng.range(0, 64),
+        };
+        frames.push(run_frame(kind, last - 1, b'q'));
+        let stream = stream_of(&frames);
+        let mut cuts = vec![];
+        let mut at = 0;
+        for f in &frames[..frames.len() - 1] {
+            at += f.len() + 1;
+            cuts.push(at);
+        }
+        if h % 3 == 1 {
+            for _ in 0..rng.range(1, 4) {
+                cuts.push(rng.range(at + 1, stream.len() - 1));
+            }
+        }
+        cuts.sort();
+        cuts.dedup();
+        let sizes = if h % 3 == 2 { (0..8).map(|_| rng.range(1, 1000)).collect() } else { vec![] };
+        let evs = events_for(&stream, &cuts, 1, frames.len(), &mut rng);
+        cases.push(Case { kind: kind.to_string(), frames, sizes, evs });
+    }
     // unterminated input of at least `limit` bytes, never closed / closed
     for extra in [0usize, 1, 300] {
         for closed in [false, true] {
